@@ -190,6 +190,11 @@ class Norm:
                         return self.ite(("cmp", "Le", ops[0], ops[1]), inner, none())
                     if kind == "RangeFull":
                         return some(X)
+                if "::get::<usize>" in str(t[1]):
+                    # s.get(i) with a plain index: Some(&s[i]) iff i < len
+                    X = self.unref(X)
+                    B, lo, hi = as_sub(X)
+                    return self.ite(("cmp", "Lt", rg, self.length(X)), some(("ref", ("elem", B, add(lo, rg)))), none())
                 return t2
             name = cn(t[1])
             if name == "core::option::Option::unwrap_or" and len(args) == 2:
@@ -220,12 +225,20 @@ class Norm:
             b = self.norm(t[1])
             if b[0] == "dc" and b[2] == 1 and t[2] == 0 and b[1][0] == "aggr" and b[1][1][:3] == SOME[:3]:
                 return b[1][2][0]
+            if b[0] == "dc" and b[2] == 0 and t[2] == 0 and b[1][0] == "aggr" and b[1][1][:3] == ("adt", "core::result::Result", "Ok"):
+                return b[1][2][0]
             if b[0] == "dc" and b[2] == 1 and t[2] == 0 and b[1][0] == "ite":
                 # payload of Some on a path where the choice is known to be Some
                 return ("fld", b, 0)
             return ("fld", b, t[2])
+        if k == "optderef" and len(t) == 2:
+            # Option<&T>::copied / cloned
+            o = self.norm(t[1])
+            return self.opt_map(o, lambda x: x[1] if x[0] == "ref" else ("deref", x))
         if k == "dc":
             b = self.norm(t[1])
+            if b[0] == "widen" and t[2] == 0:
+                return ("dc", ("aggr", ("adt", "core::result::Result", "Ok", ("0",)), (b[1],)), 0)
             for _ in range(3):
                 if b[0] == "ite" and b[1][0] == "cmp":
                     h = self.holds(b[1])
@@ -241,6 +254,10 @@ class Norm:
             return ("dc", b) + tuple(t[2:])
         if k == "discr":
             b = self.norm(t[1])
+            if b[0] == "widen":
+                return ("c", 0)        # usize::try_from(u32) is Ok (variant 0) on a 64-bit target
+            if b[0] == "aggr" and b[1][:3] == ("adt", "core::result::Result", "Ok"):
+                return ("c", 0)
             if b[0] == "aggr" and b[1] == SOME:
                 return ("c", 1)
             if b[0] == "aggr" and b[1] == NONE:
@@ -278,6 +295,15 @@ class Norm:
         if k == "bin":
             return ("bin", t[1], self.norm(t[2]), self.norm(t[3]))
         return tuple(self.norm(x) if isinstance(x, tuple) else x for x in t)
+
+    def opt_map(self, o, f):
+        if o[0] == "aggr" and o[1] == SOME:
+            return some(f(o[2][0]))
+        if o[0] == "aggr" and o[1] == NONE:
+            return o
+        if o[0] == "ite":
+            return ("ite", o[1], self.opt_map(o[2], f), self.opt_map(o[3], f))
+        return ("optderef", o)
 
     def opt_else(self, o, d):
         if o[0] == "aggr" and o[1] == SOME:
